@@ -159,9 +159,8 @@ func (r *Raft) onAppendEntriesRequest(req *appendReq, c *conn) (rpcResult, error
 		return drain(staleTerm, nil)
 	} else if req.term > r.term {
 		r.setTerm(req.getTerm())
-		r.setState(Follower)
 	}
-	r.setState(Follower)
+	r.stopLeading()
 	r.setLeader(req.src)
 
 	// reply false if log at req.prevLogIndex does not match
@@ -280,6 +279,18 @@ func (r *Raft) applyCommitted(ne *entry) {
 
 // onInstallSnapRequest -------------------------------------------------
 
+// stopLeading makes us follower. A leader's replications read the log from
+// their own goroutines: they are stopped here, before the request handler
+// that deposes us removes anything from the log (stateLoop releases the
+// leader state only after the handler has returned; doing it twice is fine).
+func (r *Raft) stopLeading() {
+	wasLeader := r.state == Leader
+	r.setState(Follower)
+	if wasLeader && r.ldr != nil {
+		r.ldr.release()
+	}
+}
+
 func (r *Raft) onInstallSnapRequest(req *installSnapReq, c *conn) (rpcResult, error) {
 	drain := func(result rpcResult, err error) (rpcResult, error) {
 		if req.size > 0 {
@@ -293,9 +304,8 @@ func (r *Raft) onInstallSnapRequest(req *installSnapReq, c *conn) (rpcResult, er
 		return drain(staleTerm, nil)
 	} else if req.term > r.term {
 		r.setTerm(req.getTerm())
-		r.setState(Follower)
 	}
-	r.setState(Follower)
+	r.stopLeading()
 	r.setLeader(req.src)
 
 	// a snapshot that does not go beyond what we have committed adds nothing
